@@ -23,40 +23,6 @@ SCOPE = ("var", "var_adj", "bit", "blocks")
 M64 = (1 << 64) - 1
 
 
-def canon(v, it, st, depth=0):
-    """hashable structural form of an abstract value (pointers followed to tables)"""
-    if isinstance(v, W):
-        return ("W", v.width, v.val if v.val is not None else tuple("T" if b is None else b for b in v.bits))
-    if isinstance(v, CS):
-        return ("CS", v.neg, frozenset("T" if b is None else b for b in v.clauses))
-    if isinstance(v, Agg):
-        return ("Agg", v.kind, v.key, v.variant, tuple(canon(f, it, st, depth + 1) for f in v.fields))
-    if isinstance(v, Arr):
-        return ("Arr", tuple(canon(f, it, st, depth + 1) for f in v.elems))
-    if isinstance(v, Ptr):
-        if depth > 4:
-            return ("Ptr",)
-        try:
-            if v.sl is not None:
-                return ("Slice", tuple(canon(e, it, st, depth + 1) for e in it.slice_elems(st, v)))
-            return ("Ref", canon(it.read_ptr(st, v), it, st, depth + 1))
-        except Exception:
-            return ("Ptr?",)
-    if isinstance(v, Opaque):
-        return ("Opaque", v.kind, tuple(canon(f, it, st, depth + 1) if not isinstance(f, (str, int, tuple, type(None))) else f for f in v.data))
-    if isinstance(v, TopV):
-        return ("Top",)
-    return ("?", repr(v))
-
-
-def has_top(c):
-    if isinstance(c, (tuple, frozenset, list)):
-        if isinstance(c, tuple) and c and c[0] == "Top":
-            return True
-        return any(has_top(x) for x in c)
-    return c == "T"
-
-
 def build_args(env, kind, b, cls, combo, n, st, n_other=None):
     K = env.kinds[kind]
     args, muts, names = [], [], ["a", "b"]
